@@ -69,5 +69,14 @@ CHECKS["C07"] = dict(
          "connection states (idle, EOF, persistent error, data/error/EOF arriving during Close, operation in flight, error already reported), closes once or twice, with 3 transport close behaviours, and "
          "delays the goroutine reaching yield point b until a was reached; each run is a child process; verdicts come only from observable behaviour.",
     note="Trusted: TLC; the gate (15 ms bound) as scheduler; runtime.Stack census (a reader stuck in a transport Read that never returns is not a leak). Five genuine defects repaired by fix: commits 31f9756, 46f498f, 9f0231e, 0de6c00.")
+CHECKS["C04"] = dict(
+    category="model_checking", design_ref="DESIGN.md §5 C04, §11",
+    technique="TLA+/TLC: Privilege.tla models the AcquirePriv loop (prompt, classify with cache/target/map-order rules, one step) and is checked against the tree-path contract for every rooted "
+              "labelled tree; PrivScn.tla generates trees x operation sequences with the device-side expectation, replayed on network.Driver against a device whose modes form the tree",
+    text="Privilege.tla: for every rooted labelled tree on 4 (thorough 5) levels, every set of authenticated edges, start mode, cold/warm cache and target, the loop ends at the target having issued "
+         "exactly the escalate/de-escalate commands of the unique tree path, each in the mode it is a transition of (Reached, AlongPath, InPlace, NoError, termination). PrivScn.tla draws trees (incl. sibling "
+         "levels that share one prompt, told apart only by the cached level), default/configuration levels, start modes and 1-4 operations (acquire, command, configs, configs at a level, config, interactive, "
+         "unknown target); the harness compares, per operation, the (mode, state, line) log of the device - commands, secrets in the password state, payload lines - the error class and the final mode.",
+    note="Trusted: TLC, the device model (rejects and logs lines arriving in the wrong mode). Exact prompts except for leaf twins; the device changes mode only through the driver; secondary secret configured.")
 PENDING_REASON = "check not built yet in this session (work in progress; see DESIGN.md §5 for the planned TLA+ specification and binding)"
 NOT_APPLICABLE = {}
